@@ -99,6 +99,32 @@ def cases(rng, tier):
             c = C.Case("intermediate", [t, variant, thr] + data)
             c.tag = f"K{k}"
             cs.append(c)
+    # block sizes whose systematic index J coincides with another row's: built one after the other in ONE process
+    # through the plan cache (variant 0) and with an explicit plan (variant 1): a cache keyed by anything coarser
+    # than the symbol count hands out the wrong plan
+    import re as _re
+    src = open(C.REPO + "/src/systematic_constants.rs").read()
+    body = src[src.index("SYSTEMATIC_INDICES_AND_PARAMETERS") :]
+    body = body[body.index("= [") : body.index("];")]
+    byj = {}
+    for m in _re.finditer(r"\((\d+),\s*(\d+),\s*\d+,\s*\d+,\s*\d+\)", body):
+        byj.setdefault(int(m.group(2)), []).append(int(m.group(1)))
+    pairs = sorted((v for v in byj.values() if len(v) >= 2 and v[1] <= (420 if tier == "quick" else 1100)), key=lambda v: v[1])
+    for v in pairs[: 3 if tier == "quick" else 12]:
+        for k in v[:2]:
+            data = CG.rand_data(rng, k)
+            for variant in (0, 1):
+                c = C.Case("intermediate", [1, variant, 0] + data)
+                c.tag = f"K{k}"
+                cs.append(c)
+    # the largest block sizes, release build only: plan replay vs direct sparse solve, and the RFC relations
+    # checked directly on the real intermediate symbols (parameters from the RFC snapshot)
+    kps_all = kprimes()
+    cases.big = []
+    for k in ([kps_all[-1], 10002] if tier == "quick" else [kps_all[-1], kps_all[-2], 29434, 20020, 10002, 9497, 5008, 3015]):
+        if k in kps_all:
+            data = CG.rand_data(rng, k)
+            cases.big.append((k, [C.Case("intermediate", [1, 0, 0] + data), C.Case("intermediate", [1, 2, 0] + data)]))
     # structure of the encoding matrix for the LARGEST block sizes (no solving, cheap): all S LDPC rows and a sample
     # of G_ENC rows, on the sparse back-end; these sizes are beyond every in-kernel certificate
     kps = kprimes()
@@ -145,6 +171,20 @@ def evaluate(cs, rep, tier):
     for tag, vals in byk.items():
         if len(vals) > 1:
             counter.append({"input": f"intermediate variants for {tag}", "expected": "identical symbols from plan cache / explicit plan / direct solve (dense and sparse)", "observed": f"{len(vals)} different results", "oracle": "variants agree"})
+    # largest block sizes (release only)
+    rfc_checked = []
+    for k, (c0, c2) in getattr(cases, "big", []):
+        r0, r2 = C.run_impl_crashsafe([c0, c2], "release", chunk=1, timeout=900)
+        if not r0.startswith("1") or not r2.startswith("1"):
+            counter.append({"input": " ".join(c0.impl_line().split()[:4]) + f" <{k} data bytes>", "expected": f"an encoder for K = {k} builds (plan replay and direct solve)", "observed": (r0[:40] + " / " + r2[:40]), "oracle": "C06"})
+            continue
+        if r0 != r2:
+            counter.append({"input": " ".join(c0.impl_line().split()[:4]) + f" <{k} data bytes>", "expected": "plan replay and direct solve give the same intermediate symbols", "observed": "they differ", "oracle": "plan replay = direct solve"})
+        if tier != "quick" or k <= 12000:
+            ans = C.run_model([C.Case("spec_check_rows_rfc", [k, 1] + c0.args[3:] + [int(x) for x in r0.split()[1:]])], timeout=3600)[0]
+            rfc_checked.append(k)
+            if ans != "1 1":
+                counter.append({"input": " ".join(c0.impl_line().split()[:4]) + f" <{k} data bytes>", "expected": "the RFC's LDPC relations hold and Enc[K', C, Tuple[K', i]] reproduces every source / padding symbol", "observed": "violated on the real intermediate symbols", "oracle": "RFC relations with the parameters of the RFC snapshot"})
     # (1) certificates in the kernel
     bound = 500 if tier == "quick" else 3000
     kps = [k for k in kprimes() if k <= bound]
@@ -184,6 +224,7 @@ def evaluate(cs, rep, tier):
              "in_kernel_bound_Kprime": bound, "Kprimes_certified": len(set(k for (k, tag), v in res.items() if v[0] and tag == "plan")),
              "of_477_table_rows": len(kprimes()), "certificate_seconds_total": round(sum(secs), 1), "certificate_seconds_max": max(secs) if secs else 0,
              "certificate_wall_s": round(time.time() - t0, 1), "extracted_validation": validated,
+             "largest_sizes_plan_vs_direct": [k for k, _ in getattr(cases, "big", [])], "rfc_relations_checked_for": rfc_checked,
              "samples": [f"cert_ok {jobs[0][0]} <{len(jobs[0][2])} numbers of the {jobs[0][1]} op list> = true" if jobs else "", cs[0].impl_line()[:120]],
              "input_distribution": {"certificate_jobs": len(jobs), "variants": {t: sum(1 for j in jobs if j[1] == t) for t in ("plan", "sparse", "dense")}, "intermediate_cases": len(cs)}}
     return {"disagreements": dis + cert_dis, "counterexamples": counter, "stats": stats}
@@ -199,9 +240,17 @@ def search_table_edit(rng):
     from props import C04
     out = []
     try:
-        ks = [k for k in C04.changed_table_rows() if k <= 1300][:3]
+        changed = C04.changed_table_rows()
     except (ValueError, OSError):
-        ks = []
+        changed = []
+    for k in [k for k in changed if k > 1300][:2]:
+        c = C.Case("intermediate", [1, 1, 0] + CG.rand_data(rng, k))
+        i = C.run_impl_crashsafe([c], "release", chunk=1, timeout=900)[0]
+        if i.startswith("1"):
+            ans = C.run_model([C.Case("spec_check_rows_rfc", [k, 1] + c.args[3:] + [int(x) for x in i.split()[1:]])], timeout=3600)[0]
+            if ans != "1 1":
+                out.append({"input": " ".join(c.impl_line().split()[:4]) + f" <{k} data bytes>", "expected": "RFC LDPC and LT relations (parameters of RFC Table 2) on the intermediate symbols", "observed": "violated", "oracle": "RFC relations from the snapshot"})
+    ks = [k for k in changed if k <= 1300][:3]
     for k in ks:
         c = C.Case("intermediate", [1, 1, 0] + CG.rand_data(rng, k))
         i = C.run_impl([c], "release")[0]
